@@ -35,6 +35,7 @@ pub fn chunk_plans() -> Vec<ChunkPlan> {
         sizes,
         pend_mask: mask,
         pend_period: period,
+        hint_exact: false,
     };
     vec![
         p(vec![], 0, 0),                                                       // one chunk
@@ -104,12 +105,22 @@ pub fn tag_variants(etag: Option<&[u8]>) -> Vec<Vec<u8>> {
     };
     let mut weak = b"W/".to_vec();
     weak.extend_from_slice(&opaque);
+    // tags derived from the entity's own tag (what proxies / content-coding modules append)
+    let inner = opaque[1..opaque.len() - 1].to_vec();
+    let mut derived = b"\"".to_vec();
+    derived.extend_from_slice(&inner);
+    derived.extend_from_slice(b"-gzip\"");
+    let mut flipped = opaque.clone();
+    let k = flipped.len() - 2;
+    flipped[k] ^= 0x01;
     vec![
         opaque,
         weak,
         b"\"zz\"".to_vec(),
         b"W/\"zz\"".to_vec(),
         b"\"a, b\"".to_vec(),
+        derived,
+        flipped,
     ]
 }
 
@@ -176,5 +187,6 @@ pub fn default_ent(len: u64) -> EntSpec {
         plan: ChunkPlan::default(),
         fault: None,
         slow_calls: false,
+        content_mode: 0,
     }
 }
